@@ -34,7 +34,7 @@ def conn_of(node, out_name):
     raise KeyError(out_name)
 
 
-def check_record(rec, nodes, stats, wall_clock=False, own_nonce=None):
+def check_record(rec, nodes, stats, wall_clock=False, own_nonce=None, check_windows=True):
     """rec: EpisodeRecord as numpy. nodes: name -> BaseNode (witness). Returns list of violation dicts."""
     V = []
 
@@ -130,7 +130,7 @@ def check_record(rec, nodes, stats, wall_clock=False, own_nonce=None):
             if (cnt != 1).any():
                 stats["not_1to1_conns"] = stats.get("not_1to1_conns", 0) + 1
             # windows
-            if s.inputs is not None:
+            if s.inputs is not None and check_windows:
                 iw = s.inputs[key]
                 wseq = onp.array(iw.seq)
                 W = c.window
